@@ -103,6 +103,13 @@ def pyEndswith (s suf : PVal) : PyM PVal :=
   | some _, Option.none => throw .typeError
   | Option.none, _ => throw .attributeError
 
+/-- `s.startswith(pre)` for a `str` / `HTML` receiver and a `str` prefix -/
+def pyStartswith (s pre : PVal) : PyM PVal :=
+  match textOf s, textOf pre with
+  | some a, some b => pure (.bool (b.isPrefixOf a))
+  | some _, Option.none => throw .typeError
+  | Option.none, _ => throw .attributeError
+
 /-- `s.replace(old, new)` for a one-character `old` -/
 def pyReplace (s old new : PVal) : PyM PVal :=
   match textOf s, textOf old, textOf new with
@@ -367,6 +374,26 @@ def pyGt (a b : PVal) : PyM PVal :=
     match fieldGet? "rank" fa, fieldGet? "rank" fb with
     | some (.int x), some (.int y) => pure (.bool (decide (x > y)))
     | _, _ => throw .unsupported
+  | _, _ => throw .unsupported
+
+/-- `a >= b`, `a <= b`, `a < b` on ints (and on versions by rank) -/
+def pyGe (a b : PVal) : PyM PVal :=
+  match a, b with
+  | .int x, .int y => pure (.bool (decide (x ≥ y)))
+  | .obj "Version" fa, .obj "Version" fb =>
+    match fieldGet? "rank" fa, fieldGet? "rank" fb with
+    | some (.int x), some (.int y) => pure (.bool (decide (x ≥ y)))
+    | _, _ => throw .unsupported
+  | _, _ => throw .unsupported
+
+def pyLe (a b : PVal) : PyM PVal := pyGe b a
+
+def pyLt (a b : PVal) : PyM PVal := pyGt b a
+
+/-- `a - b` on ints -/
+def pySub (a b : PVal) : PyM PVal :=
+  match a, b with
+  | .int x, .int y => pure (.int (x - y))
   | _, _ => throw .unsupported
 
 /-! ### instances of the library's classes -/
